@@ -1,5 +1,5 @@
 """C18 — T and Path are faithful values (proof part: pickle pair, Path sequence laws, concatenation)."""
-from pyvc.verify import Post, Case, Equiv
+from pyvc.verify import Post, Case, Equiv, NativeFacts
 
 PROPERTY = 'C18'
 REF_MODULES = ['h_path']
@@ -87,6 +87,25 @@ def contracts():
         loops={2: dict(invariant=['i % 2 == 1', '1 <= i <= len(sub_parts)',
                                   'same(path_t.__ops__, path_t__entry.__ops__ + sub_parts[1:i])', 'len(path_t.__ops__) >= 1',
                                   'path_t.__ops__[0] is T'], pure=True)}))
+    # rendering is a function of the expression alone: the repr helpers write nothing but their own fresh locals and no module-level cache exists
+    from contracts import write_scan
+    import json as _json, os as _os
+    REPR_FUNCS = {'_format_t', '_format_path', '_format_slice', 'Path.__repr__', 'TType.__repr__', 'format_invocation', '_BBRepr.repr1', '_BBRepr.__init__',
+                  '_BBReprFormatter.convert_field'}
+
+    class _ReprPure(NativeFacts):
+        def run(self, v):
+            self.items = [it for it, site in zip(write_scan.items(v.repo), write_scan.scan(v.repo)) if site[0] == 'core' and site[1] in REPR_FUNCS]
+            allowed = {tuple(x) for x in _json.load(open(_os.path.join(_os.path.dirname(_os.path.abspath(__file__)), 'module_globals_allowed.json')))}
+            found = [g for g in write_scan.module_globals(v.repo) if g[0] == 'core']
+            self.items.append(('module-level mutable state (core)', 'no module-level container beyond the recorded ones (a repr cache would be one): %r' % (found,),
+                               lambda f, found=found, allowed=allowed: set(found) <= allowed))
+            fns = {fi.qual for fi in v.repo.functions.values() if fi.module == 'core' and ('format' in fi.qual.lower() or fi.qual.endswith('__repr__') or 'BBRepr' in fi.qual)}
+            known = REPR_FUNCS | {q for q in fns if q.endswith('__repr__')} | {'format_oneline_trace', 'format_target_spec_trace', '_format_trace_value'}
+            self.items.append(('rendering helpers', 'the functions that take part in rendering are the recorded ones (a new helper or wrapper needs review): %r' % sorted(fns - known),
+                               lambda f, fns=fns, known=known: fns <= known))
+            NativeFacts.run(self, v)
+    cs.append(_ReprPure('C18.repr-pure', [], func='rendering helpers in glom/core.py'))
     # the other shapes of Path(...): no parts -> the root T itself; a non-T part -> one 'P' step holding that very object; a T part not rooted at T is rejected
     TT = ['len(T.__ops__) == 1', 'T.__ops__[0] is T']
     cs.append(Post('core.Path.__init__', helpers='h_path', label='core.Path.__init__[shapes]', cases=[
@@ -114,7 +133,7 @@ ASSUMPTIONS = [
 TRUSTED = ['z3 sequence theory for tuple slicing/concatenation; slice clamping model cross-checked against CPython (pyvc/z.py self-test)']
 EXPLANATION = ('Path.__getitem__/__len__/values/items/__eq__/__ne__/startswith/from_t/__init__ and the pickle pair are symbolically executed '
                'from the working tree for every path length and every index / in-range slice bound; eval(repr(x)) and stepped slices '
-               'are covered by the labelled bounded stand-in only.')
+               'are covered by the labelled bounded stand-in only; C18.repr-pure is the frame condition of the rendering helpers (no shared state).')
 
 
 # ---------------------------------------------------------------------------------------------------------------------
@@ -245,6 +264,21 @@ def bounded_eval_repr(tier, seed):
                 if not ok and len(failures) < 3:
                     failures.append({'key': 'eval-repr', 'input': {'repr': r}, 'observed': 'eval(repr(x)) differs from x', 'expected': 'round trip',
                                      'replay_code': "from glom import *\nimport glom\nx = %s\nassert repr(eval(repr(x))) == repr(x)\n" % r})
+    # the text depends on the expression alone, not on what was printed before: literals that are == but not the same (1 / 1.0 / True,
+    # 0 / 0.0 / False, 'a' / b'a' are not ==) printed one after the other, in both orders, keep their own spelling and type
+    groups = [[1, 1.0, True], [0, 0.0, False, -0.0], [(1, 2), (1.0, 2.0)], [2, 2.0]]
+    for grp in groups:
+        for order in (grp, list(reversed(grp))):
+            for mk, nm in ((lambda v: T[v], 'T[%s]'), (lambda v: T.f(v), 'T.f(%s)'), (lambda v: T['k'] + v, "T['k'] + %s"), (lambda v: Path('k', T[v]), "Path('k', T[%s])"),
+                           (lambda v: S.x[v], 'S.x[%s]')):
+                for v in order:
+                    cases += 1
+                    x = mk(v)
+                    r = repr(x)
+                    lit = ', '.join(repr(e) for e in v) if isinstance(v, tuple) and '[%s]' in nm else repr(v)
+                    if r != nm % lit and len(failures) < 3:
+                        failures.append({'key': 'eval-repr', 'input': {'literal': repr(v), 'printed after': [repr(o) for o in order[:order.index(v)]]},
+                                         'observed': r, 'expected': nm % lit, 'replay_code': None})
     # Paths
     for d in range(0, depth + 1):
         for seq in itertools.product(lits[:9] + [T.a, T['k'], T.__star__()], repeat=d):
@@ -274,4 +308,6 @@ CANARIES = [
      'old': "        return (len(self.path_t.__ops__) - 1) // 2", 'new': "        return len(self.path_t.__ops__) // 2 + 1"},
     {'name': 'setstate: root table swapped', 'module': 'core', 'only': ['LEMMA C18.pickle'], 'expect': ['LEMMA C18.pickle'],
      'old': "self.__ops__ = ({'T': T, 'S': S, 'A': A}[state[0]],) + state[1:]", 'new': "self.__ops__ = ({'T': T, 'S': A, 'A': S}[state[0]],) + state[1:]"},
+    {'name': 'repr text memoised in a module-level dict', 'module': 'core', 'only': ['C18.repr-pure'], 'expect': ['C18.repr-pure'], 'old': 'def _format_t(path, root=T):\n    prepr = [', 'new': '_FORMAT_MEMO = {}\n\n\ndef _format_t(path, root=T):\n    _FORMAT_MEMO[len(path)] = root\n    prepr = ['},
+    {'name': 'Path(): a non-T part becomes an item step', 'module': 'core', 'only': ['core.Path.__init__[shapes]'], 'expect': ['core.Path.__init__[shapes]'], 'old': "                path_t = _t_child(path_t, 'P', part)", 'new': "                path_t = _t_child(path_t, '[', part)"},
 ]
